@@ -58,6 +58,19 @@ P_NEST = {"name": "n", "priority": 1, "transformations": [
     {"id": "after", "type": "field_name_suffix", "suffix": "_t", "field_name_conditions": [{"type": "processing_item_applied", "processing_item_id": "i2"}]}]}
 rec("nested_tracking", lambda: conv(P_NEST, [rule({"sel": {"f1": "a", "f2": "b"}}, fields=["f1", "f2", "f9"])]))
 rec("regex_flags", lambda: conv(None, [rule({"sel": {"f1|re|i|m|s": "a.*", "f2|re|s|i": "b"}})], V.K(re_flag_prefix=True)))
+def conv_few_flags(collect):
+    """a backend that supports only the i flag converts expressions with several unsupported flags"""
+    from sigma.types import SigmaRegularExpressionFlag
+
+    base = V.make_backend_class(V.K(re_flag_prefix=True))
+    cls = type("C20FewFlags", (base,), {"re_flags": {SigmaRegularExpressionFlag.IGNORECASE: "i"}})
+    b = cls(None, collect_errors=collect)
+    qs = b.convert(SigmaCollection.from_dicts([rule({"sel": {"f1|re|m|s": "a.*"}}), rule({"sel": {"f2|re|i|s|m": "b"}}), rule({"sel": {"f3|re|i": "c"}})]))
+    return [qs, [(type(e).__name__, str(e)) for _, e in b.errors]]
+
+
+rec("error_regex_flags_unsupported", lambda: conv_few_flags(False))
+rec("error_regex_flags_unsupported_collected", lambda: conv_few_flags(True))
 P_COND = {"name": "c", "priority": 1, "transformations": [{"id": "c1", "type": "add_condition", "conditions": {"src": "one"}}, {"id": "c2", "type": "add_condition", "conditions": {"idx": "two"}, "negated": True}]}
 rec("add_condition", lambda: conv(P_COND, [rule({"sel": {"f1": "a"}}), rule({"sel": {"f1": "b"}, "flt": {"f2": "c"}}, "sel and not flt")]))
 FILTERS = [rule({"sel": {"f1": "a"}, "sel2": {"f2": "b"}}, "1 of sel*", id="11111111-1111-4111-8111-111111111111"),
